@@ -196,18 +196,22 @@ class C17(Property):
                     return
                 y = dt.to_units(fm.UNITS.Quantity(x.copy(), a), b, check_equivalent=rnd.random() < 0.5)
             elif how == "prepare":
-                info = fm.Info(time=None, grid=fm.NoGrid(1), units=b)
+                # sometimes under metadata with a fixed (all-False) mask: conversion must not depend on it
+                mk = np.zeros(4, bool) if rnd.random() < 0.4 else fm.Mask.FLEX
+                info = fm.Info(time=None, grid=fm.NoGrid(data_shape=(4,)), units=b, mask=mk)
                 y = dt.prepare(fm.UNITS.Quantity(x.copy(), a), info)[0]
             else:
                 from datetime import datetime
 
                 t0 = datetime(2000, 1, 1)
-                o = fm.Output(name="o", time=t0, grid=fm.NoGrid(1), units=a)
-                i = fm.Input(name="i", time=t0, grid=fm.NoGrid(1), units=b)
+                mk = np.zeros(4, bool) if rnd.random() < 0.4 else fm.Mask.FLEX
+                pub_units = rnd.choice([a, a, b])  # publish in the output's or in foreign (compatible) units
+                o = fm.Output(name="o", time=t0, grid=fm.NoGrid(data_shape=(4,)), units=a, mask=mk)
+                i = fm.Input(name="i", time=t0, grid=fm.NoGrid(data_shape=(4,)), units=b, mask=mk)
                 o >> i
                 i.ping()
                 i.exchange_info()
-                o.push_data(x.copy(), t0)
+                o.push_data(fm.UNITS.Quantity(o_convert(x, a, pub_units), pub_units) if compat and rnd.random() < 0.6 else x.copy(), t0)
                 y = i.pull_data(t0)[0]
         except (fm.FinamDataError, fm.FinamMetaDataError) as e:
             if compat:
@@ -229,7 +233,7 @@ class C17(Property):
         if not lab_ok:
             out.viol("wrong_label", f"{how}: result labelled {getattr(y, 'units', None)} expected {b}", a=a, b=b)
             return
-        got = np.asarray(y.magnitude, dtype=float)
+        got = np.asarray(np.ma.getdata(y.magnitude), dtype=float)
         scale = max(1.0, float(np.max(np.abs(exp))))
         if equiv:
             ok = np.array_equal(got, x) or np.allclose(got, x, rtol=1e-12, atol=0)
